@@ -5,7 +5,9 @@ case = {"cls": "ABM"|"DEVS", "script": [[tick, [act...]], ...], "fuel": n, "ops"
         false = simulator.setup(model) is never called: run calls must raise and change nothing)}
 times are integers counting 1/8 (S = 8); `fl` says whether the Python value handed to the simulator is a
 float (t/8) or an int (t//8, only when 8 | t).
-op  = ["reset"] | ["setup"] (life cycle: Simulator.reset(), setup(<a new model>)) |
+op  = ["idjump", k] (the process-wide event-id counter SimulationEvent._ids is advanced by k, as if k events had been created by
+      other simulators in between; invisible in the model, whose ids are only compared: printed as a cancel of a tag that does not exist) |
+      ["reset"] | ["setup"] (life cycle: Simulator.reset(), setup(<a new model>)) |
       ["sched", kind, t, fl, prio, tag, holder, body] | ["cancel", tag] | ["drop", holder]
     | ["until", t, fl] | ["for", d, fl] | ["next"] | ["peek", n]
 act = ["sched", ...same...] | ["cancel", tag] | ["drop", holder] | ["raise"] (the user callable raises UserBoom: ARaise in the model)
@@ -269,7 +271,9 @@ class _Env:
         return [sc(self.sim.time), int(self.model.steps), self.pending()]
 
     def view(self, log):
-        clk, steps, pend = self.snapshot()
+        # one snapshot per operation: it is also the `after` of this operation and the `before` of the next one
+        self._snap = self.snapshot()
+        clk, steps, pend = self._snap
         out = [clk, steps, len(pend)]
         for p in pend:
             out += p
@@ -287,7 +291,8 @@ class _Env:
         self.decoy.schedule_event_absolute(_noop, 1.0)
         self.ncall += 1
         spell = self.ncall % 2
-        info = {"before": self.snapshot()}
+        info = {"before": self._last if getattr(self, "_last", None) is not None else self.snapshot()}
+        self._snap = None
         if k == "sched":
             rc, t = self.do_sched(*op[1:])
             info["rc"] = rc
@@ -329,6 +334,12 @@ class _Env:
             except IndexError:
                 info["peek"] = None
                 ob = [-1, E_EMPTY]
+        elif k == "idjump":
+            import itertools
+
+            from mesa.experimental.devs.eventlist import SimulationEvent
+            SimulationEvent._ids = itertools.count(next(SimulationEvent._ids) + int(op[1]))
+            ob = [0] + self.view([])
         elif k == "reset":
             self.sim.reset()
             self.is_setup = False
@@ -354,7 +365,8 @@ class _Env:
         info["caller_args_ok"] = self.shared_kw == {"extra": 7} and all(len(a) == 2 and a[0] == t for a, t in self.args_ref)
         info["log"] = [list(i) for i in self.log]
         info["atom"] = list(self.atom)
-        info["after"] = self.snapshot()
+        info["after"] = self._snap if self._snap is not None else self.snapshot()
+        self._last = info["after"]
         info["n_events"] = len(self.sim.event_list._events)
         return ob, info
 
@@ -716,7 +728,9 @@ def oracle(case, recs):
             break
         exp = [[e["tag"], e["time"], e["prio"]] for e in sh.live()]
         got = after[2]
-        if sorted(exp) != sorted(got):
+        # (with hundreds of pending events the full comparison is made after run calls and every 37th operation, the count always)
+        full = len(exp) <= 300 or k in ("until", "for", "next", "reset", "setup") or i % 37 == 0 or i == len(case["ops"]) - 1
+        if (sorted(exp) != sorted(got)) if full else (len(exp) != len(got)):
             lost = [e for e in exp if e not in got]
             extra = [e for e in got if e not in exp]
             if any(e[0] == -1 for e in lost + extra):
@@ -724,7 +738,7 @@ def oracle(case, recs):
             else:
                 fail(f"C14/{cls}/pending/differs-from-what-was-scheduled", i, f"after {op}: events lost {lost}, unexpected {extra} (tag, {_tu()}, priority)")
             break
-        if k in ("sched", "cancel", "drop", "peek") and (after[0] != before[0] or after[1] != before[1]):
+        if k in ("sched", "cancel", "drop", "peek", "idjump") and (after[0] != before[0] or after[1] != before[1]):
             fail(f"C14/{cls}/{k}/changed-clock-or-steps", i, f"{op}: clock/steps {before[:2]} -> {after[:2]}")
             break
     return fails
@@ -842,6 +856,8 @@ def coq_op(op):
 
 
 def coq_xop(op):
+    if op[0] == "idjump":
+        return "XOp (OCancel (-424242))"        # ids are unbounded and only compared in the model: a jump changes nothing
     if op[0] == "reset":
         return "XReset"
     if op[0] == "setup":
